@@ -2,6 +2,7 @@
  * stream's flags/fill/width, byte-exact hex dump.  The stream is the token-log model; every inserted value token
  * carries a snapshot of the stream's flags/width/fill at the time of insertion. */
 #define VP_TOK_CAP 24
+#define VP_TOK_FMT 1
 #include "vp_models.h"
 #include "unit.h"
 #include "vp_models_impl.h"
